@@ -231,8 +231,8 @@ M("c03-method-lookup-by-name", ["C03"], VM,
   "            if key_str in (\"bind\", \"call\", \"apply\", \"toString\"):\n                return self._make_function_method(obj, key_str)\n            if hasattr(obj, key_str):\n                return getattr(obj, key_str)",
   [("C03", "C03-R1", "attr")])
 M("c03-setproto-unguarded", ["C03"], CX,
-  "            if proto is NULL or proto is None:\n                obj._prototype = None\n            elif isinstance(proto, JSObject):\n                obj._prototype = proto\n\n            if properties is not UNDEFINED",
-  "            if proto is NULL or proto is None:\n                obj._prototype = None\n            else:\n                obj._prototype = proto\n\n            if properties is not UNDEFINED",
+  "            if proto is NULL:\n                obj._prototype = None\n            elif isinstance(proto, JSObject):\n                obj._prototype = proto\n            else:\n                raise JSTypeError(\"Object prototype may only be an Object or null\")\n",
+  "            if proto is NULL:\n                obj._prototype = None\n            else:\n                obj._prototype = proto\n",
   [("C03", "C03-R4", "create_fn")])
 M("c03-callable-exposes-more", ["C03"], VM,
   "            if key_str in (\"call\", \"apply\", \"bind\"):\n                return self._make_callable_method(obj, key_str)\n            return UNDEFINED\n\n        return UNDEFINED",
@@ -273,8 +273,8 @@ M("c14-raw-bytecode-write", ["C14"], CO,
 
 # ------------------------------------------------------------------ C06 / C13
 M("c06-plus-assign-sub", ["C06"], CO,
-  "                    op = node.operator[:-1]  # Remove '='\n                    op_map = {\n                        \"+\": OpCode.ADD,\n                        \"-\": OpCode.SUB,\n                        \"*\": OpCode.MUL,\n                        \"/\": OpCode.DIV,\n                        \"%\": OpCode.MOD,\n                        \"&\": OpCode.BAND,\n                        \"|\": OpCode.BOR,\n                        \"^\": OpCode.BXOR,\n                        \"<<\": OpCode.SHL,\n                        \">>\": OpCode.SHR,\n                        \">>>\": OpCode.USHR,\n                    }\n                    self._emit(op_map[op])\n\n                self._emit(OpCode.DUP)",
-  "                    op = node.operator[:-1]  # Remove '='\n                    op_map = {\n                        \"+\": OpCode.ADD,\n                        \"-\": OpCode.SUB,\n                        \"*\": OpCode.MUL,\n                        \"/\": OpCode.DIV,\n                        \"%\": OpCode.MOD,\n                        \"&\": OpCode.BAND,\n                        \"|\": OpCode.BOR,\n                        \"^\": OpCode.BXOR,\n                        \"<<\": OpCode.SHL,\n                        \">>\": OpCode.SHL,\n                        \">>>\": OpCode.USHR,\n                    }\n                    self._emit(op_map[op])\n\n                self._emit(OpCode.DUP)",
+  "                        \">>\": OpCode.SHR,\n                        \">>>\": OpCode.USHR,\n                    }\n                    self._emit(op_map[op])\n\n                self._emit(OpCode.DUP)",
+  "                        \">>\": OpCode.SHL,\n                        \">>>\": OpCode.USHR,\n                    }\n                    self._emit(op_map[op])\n\n                self._emit(OpCode.DUP)",
   [("C06", "C06-R1", "compound:>>=")])
 M("c06-nan-compare-regress", ["C06"], VM,
   "        if math.isnan(a_num) or math.isnan(b_num):\n            return None", "        if math.isnan(a_num) or math.isnan(b_num):\n            return 1",
@@ -432,7 +432,7 @@ T("t-void-extra-dup-pop", ["C02", "C05"], CO,
   "                self._compile_expression(node.argument)\n                self._emit(OpCode.DUP)\n                self._emit(OpCode.POP)\n                self._emit(OpCode.POP)  # Discard the argument value\n                self._emit(OpCode.LOAD_UNDEFINED)")
 T("t-new-native-guarded", ["C04", "C16"], VM,
   "        def toString(*args):\n            return s\n\n        methods = {\n            \"charAt\": charAt,",
-  "        def toString(*args):\n            return s\n\n        def at(*args):\n            n = to_number(args[0]) if args else 0\n            if math.isnan(n) or math.isinf(n):\n                return UNDEFINED\n            idx = int(n)\n            if idx < 0:\n                idx += len(s)\n            if 0 <= idx < len(s):\n                return s[idx]\n            return UNDEFINED\n\n        methods = {\n            \"at\": at,\n            \"charAt\": charAt,",
+  "        def toString(*args):\n            return s\n\n        def at(*args):\n            n = to_number(args[0]) if args else float(\"nan\")\n            if math.isinf(n):\n                return UNDEFINED\n            idx = 0 if math.isnan(n) else int(n)\n            if idx < 0:\n                idx += len(s)\n            if 0 <= idx < len(s):\n                return s[idx]\n            return UNDEFINED\n\n        methods = {\n            \"at\": at,\n            \"charAt\": charAt,",
   more=[(VM, "            string_methods = [\n                \"charAt\",", "            string_methods = [\n                \"at\",\n                \"charAt\",", 1)])
 T("t-rename-local-in-to-python", ["C11"], CX,
   "                return [self._to_python(elem, path) for elem in value._elements]", "                return [self._to_python(item, path) for item in value._elements]")
@@ -609,8 +609,8 @@ M("c09-lookbehind-attempts-share-captures", ["C09"], RV,
 
 # ------------------------------------------------------------------ regex deadlines belong to the running evaluation (fix 35564e0)
 M("c12-test-does-not-adopt", ["C12"], VM,
-  "            string = to_string(args[0]) if args else \"\"\n            self._adopt_regex(re)\n            try:\n                return re.test(string)",
-  "            string = to_string(args[0]) if args else \"\"\n            try:\n                return re.test(string)",
+  "            string = to_string(args[0]) if args else \"undefined\"\n            self._adopt_regex(re)\n            try:\n                return re.test(string)",
+  "            string = to_string(args[0]) if args else \"undefined\"\n            try:\n                return re.test(string)",
   [("C12", "C12-R5", "test_fn|JSRegExp deadline")])
 M("c12-replace-uses-stored-callback", ["C12"], VM,
   "                    regex_internal = self._adopt_regex(pattern)\n", "                    regex_internal = pattern._internal\n",
@@ -852,3 +852,82 @@ M("c17-set-copies-in-place", ["C17"], VM,
 M("c06-compound-form-missing", ["C06"], PA,
   "            TokenType.STAR_ASSIGN,\n            TokenType.STARSTAR_ASSIGN,\n", "            TokenType.STAR_ASSIGN,\n",
   [("C06", "C06-R1", "")], count=2, note="fix 7f919c3 reverted in the parser: **= is lexed but not accepted")
+
+# ---- wave 6 ---------------------------------------------------------------------------------------------
+S("seed-C16-c", ["C16"], "seeded/C16-c/patch.diff", [("C16", "C16-R7", "int_arg")], note="optional-position helper drops the default for an explicit undefined")
+TP("t-string-int-arg-helper", ALL_PROPS, "selftest/patches/t-string-int-arg-helper.diff", note="optional integer arguments of the String methods through one helper that passes the default on (repaired C16-c)")
+M("c16-missing-search-string-is-empty", ["C16"], VM,
+  '            search = to_string(args[0]) if args else "undefined"\n            pos = to_integer(args[1]) if len(args) > 1 else 0\n            pos = min(max(pos, 0), len(s))  # clamped, not relative to the end\n            return search in s[pos:]\n',
+  '            search = to_string(args[0]) if args else ""\n            pos = to_integer(args[1]) if len(args) > 1 else 0\n            pos = min(max(pos, 0), len(s))  # clamped, not relative to the end\n            return search in s[pos:]\n',
+  [("C16", "C16-R7", "includes:search")], note="fix 94dce16 reverted for includes")
+M("c20-match-undefined-is-not-missing", ["C20", "C16"], VM,
+  "            pattern = args[0] if args else UNDEFINED\n            if pattern is UNDEFINED:\n                return 0",
+  "            pattern = args[0] if args else None\n            if pattern is None:\n                return 0",
+  [("C20", "C20-R6", "search:pattern"), ("C16", "C16-R7", "search:pattern")], note="fix 94dce16 reverted for search: sentinel None tested alone")
+M("c17-typed-join-undefined-separator", ["C17"], VM,
+  '            separator = "," if not args or args[0] is UNDEFINED else to_string(args[0])\n            return separator.join(',
+  '            separator = to_string(args[0]) if args else ","\n            return separator.join(',
+  [("C17", "C17-R16", "join_fn:separator")], note="fix 94dce16 reverted for typed-array join")
+M("c08-hasownproperty-missing-key", ["C08"], VM,
+  '            key = to_string(args[0]) if args else "undefined"\n', '            key = to_string(args[0]) if args else ""\n',
+  [("C08", "C08-R12", "hasOwnProperty_fn:key")], note="fix 94dce16 reverted for hasOwnProperty")
+M("c18-tostring-radix-default-dropped", ["C18"], VM,
+  "            radix = to_integer(args[0], 10) if args else 10\n", "            radix = to_integer(args[0]) if args else 10\n",
+  [("C18", "C18-R9", "radix")], note="toString(undefined) would use radix 0")
+T("t-missing-arg-spelled-with-len", ["C16"], VM,
+  '            search = to_string(args[0]) if args else "undefined"\n            pos = to_integer(args[1]) if len(args) > 1 else 0\n            pos = min(max(pos, 0), len(s))  # clamped, not relative to the end\n            return search in s[pos:]\n',
+  '            search = "undefined" if len(args) < 1 else to_string(args[0])\n            pos = 0 if len(args) <= 1 else to_integer(args[1])\n            pos = min(max(pos, 0), len(s))  # clamped, not relative to the end\n            return search in s[pos:]\n',
+  note="the same decisions with the absence test first")
+M("c18-parseint-prefix-ignores-radix", ["C18"], CX,
+  '        if hex_prefix and (s.startswith("0x") or s.startswith("0X")):\n            radix = 16\n', '        if s.startswith("0x") or s.startswith("0X"):\n            radix = 16\n',
+  [("C18", "C18-R10", "_global_parseint:radix = 16")], note="fix b952845 reverted in the global parseInt")
+M("c06-strict-equality-admits-bool", ["C06"], VM,
+  "            if isinstance(a, bool) or isinstance(b, bool):\n                return False\n            if isinstance(a, (int, float)) and isinstance(b, (int, float)):\n                return a == b\n",
+  "            if isinstance(a, (int, float)) and isinstance(b, (int, float)):\n                return a == b\n",
+  [("C06", "C06-R4b", "_strict_equals")], note="fix 5025912 reverted: true === 1")
+T("t-strict-equality-bool-excluded-in-test", ["C06"], VM,
+  "            if isinstance(a, bool) or isinstance(b, bool):\n                return False\n            if isinstance(a, (int, float)) and isinstance(b, (int, float)):\n                return a == b\n",
+  "            if isinstance(a, (int, float)) and isinstance(b, (int, float)) and not isinstance(a, bool) and not isinstance(b, bool):\n                return a == b\n",
+  note="the exclusion inside the numeric test")
+M("c06-postfix-result-not-converted", ["C06"], CO,
+  "                        self._emit(OpCode.POS)\n                        self._emit(OpCode.DUP)\n                        self._emit(inc_op)\n                        self._emit(OpCode.STORE_CELL, cell_slot)",
+  "                        self._emit(OpCode.DUP)\n                        self._emit(inc_op)\n                        self._emit(OpCode.STORE_CELL, cell_slot)",
+  [("C06", "C06-R9", "LOAD_CELL")], note="fix 73d2d71 reverted for captured locals")
+M("c18-log2-pole-is-nan", ["C18"], CX,
+  '            if x == 0:\n                return float("-inf")\n            return math.log2(x) if x > 0 else float("nan")\n', '            return math.log2(x) if x > 0 else float("nan")\n',
+  [("C18", "C18-R11", "log2_fn")], note="fix 89a82de reverted for log2")
+T("t-log-pole-in-one-test", ["C18"], CX,
+  '            if x == 0:\n                return float("-inf")\n            return math.log2(x) if x > 0 else float("nan")\n',
+  '            if x <= 0:\n                return float("nan") if x != 0 else -math.inf\n            return math.log2(x)\n',
+  note="the pole singled out inside the domain guard")
+M("c17-typed-join-host-str", ["C17", "C18"], VM,
+  "            return separator.join(\n                to_string(arr.get_index(i)) for i in range(arr.length)\n            )",
+  "            return separator.join(str(arr.get_index(i)) for i in range(arr.length))",
+  [("C17", "C17-R17", "join_fn"), ("C18", "C18-R6", "join_fn")], note="fix 3b4bb62 reverted: NaN elements print as nan")
+M("c17-sort-default-order-plain-to-string", ["C17"], VM,
+  "                str_a = value_to_string(a)\n                str_b = value_to_string(b)\n", "                str_a = to_string(a)\n                str_b = to_string(b)\n",
+  [("C17", "C17-R18", "default_compare")], note="fix 1c4bbcb reverted")
+M("c17-join-elements-plain-to-string", ["C17"], VM,
+  "            if isinstance(value, JSObject):\n                return vm._object_to_string(value)\n            return to_string(value)\n", "            return to_string(value)\n",
+  [("C17", "C17-R18", "value_to_string")], note="fix 92e1ae4 reverted: nested arrays print as [object Object]")
+S("seed-C06-c", ["C06"], "seeded/C06-c/patch.diff", [("C06", "C06-R10", "_compile_expression")], note="negative literals folded into the constant pool, whose == lookup identifies -0.0 with 0")
+TP("t-negative-literal-folded", ALL_PROPS, "selftest/patches/t-negative-literal-folded.diff", note="the same folding with a constant pool that compares type and sign of zero (repaired C06-c)")
+S("seed-C09-d", ["C09"], "seeded/C09-d/patch.diff", [("C09", "C09-R5", "_run_lookbehind")], note="lookbehind start positions bounded by the body's width; the far bound can be negative")
+TP("t-lookbehind-width-bounds", ALL_PROPS, "selftest/patches/t-lookbehind-width-bounds.diff", note="the same width-bounded lookbehind scan with the far bound clamped at 0 (repaired C09-d)")
+M("c09-lookbehind-scans-past-start", ["C09"], "src/microjs/regex/vm.py",
+  "        for start_pos in range(end_pos, -1, -1):\n", "        for start_pos in range(end_pos, -2, -1):\n",
+  [("C09", "C09-R5", "_run_lookbehind")], note="the scan goes one position before the subject")
+S("seed-C11-c", ["C11"], "seeded/C11-c/patch.diff", [("C11", "C11-R1", "update")], note="flat-container fast path copies a host dict's keys without str()")
+TP("t-flat-container-fast-path", ALL_PROPS, "selftest/patches/t-flat-container-fast-path.diff", note="wholesale copies of containers of host scalars at the boundary, keys converted with str() (repaired C11-c)")
+S("seed-C13-c", ["C13"], "seeded/C13-c/patch.diff", [("C13", "C13-R9", "_parse_for_statement")], note="`in` exclusion as parser state; the for-in/for-of returns leave it switched off")
+TP("t-parser-allow-in-flag", ALL_PROPS, "selftest/patches/t-parser-allow-in-flag.diff", note="`in` exclusion as a parser flag restored in a finally, sub-parsers run through a callable-taking helper (repaired C13-c)")
+S("seed-C14-c", ["C14", "C04"], "seeded/C14-c/patch.diff", [("C14", "C14-R3", "_call_callback"), ("C04", "C04-R3", "_call_callback")], note="wide constant-load opcode; the second decode loop does not know its operand width")
+TP("t-wide-constant-load", ALL_PROPS, "selftest/patches/t-wide-constant-load.diff", note="LOAD_CONST_WIDE with a 16-bit operand known to both decode loops (repaired C14-c)")
+S("seed-C15-d", ["C15", "C12"], "seeded/C15-d/patch.diff", [("C15", "C15-R4", "_PROGRAM_CACHE"), ("C12", "C12-R1", "_PROGRAM_CACHE")], note="process-wide cache of compiled regex programs keyed without the i flag")
+TP("t-regex-program-cache", ALL_PROPS, "selftest/patches/t-regex-program-cache.diff", note="the same cache keyed by every flag the parser and compiler read (repaired C15-d)")
+S("seed-C18-c", ["C18"], "seeded/C18-c/patch.diff", [("C18", "C18-R11", "unary")], note="Math natives through one wrapper that maps every ValueError to NaN: the logarithms lose -Infinity at their pole")
+TP("t-math-unary-wrapper", ALL_PROPS, "selftest/patches/t-math-unary-wrapper.diff", note="the same wrapper with the pole passed in and answered before the host call (repaired C18-c)")
+S("seed-C04-c", ["C04", "C01", "C10", "C20"], "seeded/C04-c/patch.diff", [("C04", "C04-R1", "RegexStackOverflow|RegexTimeoutError|_run"), ("C01", "C01-R5", "replace"), ("C10", "C10-R1b", "replace"), ("C20", "C20-R3a", "replace")], note="regex limit conversion folded into one wrapper; replaceAll reaches replace without it", silent=("C16",))
+TP("t-regex-limits-wrapper", ALL_PROPS, "selftest/patches/t-regex-limits-wrapper.diff", note="the same wrapper applied to every native that runs the matcher, replaceAll included (repaired C04-c)")
+S("seed-C01-d", ["C01", "C02"], "seeded/C01-d/patch.diff", [("C01", "C01-R1", "loop"), ("C02", "C02-R1a", "loop")], note="limit check moved to safepoints; the do-while back edge (JUMP_IF_TRUE) has none")
+TP("t-limit-check-at-safepoints", ALL_PROPS, "selftest/patches/t-limit-check-at-safepoints.diff", note="limit check at every backward jump the compiler can emit and at every frame push instead of per instruction (repaired C01-d)")
